@@ -122,6 +122,20 @@ func seq(c *kit.Ctx, id string) {
 					bad = true
 					return
 				}
+				if w.R.Intn(3) == 0 {
+					// the copy (taken at any point of a transaction) is committed and reopened from its
+					// roots: what was written must again be consistent with itself
+					r1, r2, r3, err := cp.Commit(true)
+					if err == nil {
+						if st2, err := state.New(r1, r2, r3, w.DB); err == nil {
+							if report(c, "on a committed Copy reopened from its roots", mon.CheckLive(st2, w.U), w) {
+								bad = true
+								return
+							}
+							c.Count("committed_copies_reopened", 1)
+						}
+					}
+				}
 				continue
 			default:
 				w.Op()
